@@ -25,9 +25,10 @@ import traceback
 from pathlib import Path
 
 VERIF = Path(__file__).resolve().parent.parent
-EVIDENCE = VERIF / 'evidence'
-REPLAYS = VERIF / 'replays'
-SCRATCH = VERIF / '.scratch'
+EVIDENCE = Path(os.environ.get('VERIF_EVIDENCE_DIR') or VERIF / 'evidence')
+REPLAYS = Path(os.environ.get('VERIF_REPLAY_DIR') or VERIF / 'replays')
+SCRATCH_ROOT = VERIF / '.scratch'
+SCRATCH = SCRATCH_ROOT / f'run-{os.getpid()}'      # journals and worker stderr of THIS campaign (forked workers inherit it)
 KNOWN = VERIF / 'known_findings.json'
 
 
@@ -106,7 +107,7 @@ def _alarm(signum, frame):
 def _worker_init(check_modname, env):
     global _worker_check, _journal
     os.environ.update(env)
-    SCRATCH.mkdir(exist_ok=True)
+    SCRATCH.mkdir(parents=True, exist_ok=True)
     errf = open(SCRATCH / f'worker-{os.getpid()}.err', 'w')
     os.dup2(errf.fileno(), 2)           # C-level stderr noise (native fallback warnings) goes to a file
     sys.stderr = os.fdopen(os.dup(2), 'w', buffering=1)
@@ -229,7 +230,7 @@ def run_campaign(check, tier, seed, workers=None, n_cases=None, log=print):
     budget = plan['budget_s']
     timeout_s = plan.get('case_timeout_s', 20)
     workers = workers or int(os.environ.get('VERIF_WORKERS', '0')) or min(16, os.cpu_count() or 4)
-    SCRATCH.mkdir(exist_ok=True)
+    SCRATCH.mkdir(parents=True, exist_ok=True)
     for f in SCRATCH.glob('journal-*'):
         try:
             f.unlink()
@@ -324,6 +325,8 @@ def run_campaign(check, tier, seed, workers=None, n_cases=None, log=print):
             'observed': c['stderr_tail'][-1500:]}})
     agg['wall_s'] = time.time() - t0
     agg['planned'] = n
+    import shutil
+    shutil.rmtree(SCRATCH, ignore_errors=True)
     agg['stopped_early'] = bool(pending)
     return agg
 
